@@ -56,6 +56,9 @@ Definition tool_msg (t : tmsg) : msg := mkMsg RTool (fst t) [] (snd t).
    output of the tools node (Invoke fails with the empty-stream error instead): outside the domain,
    as in property C17 (zero_chunk_outside_domain); the theorems exclude it by hypothesis *)
 Definition E_NILSLOT : N := 9.
+(* model only: the code under which [ELate] reports that the chunks of the stream a run returned
+   cannot be concatenated *)
+Definition E_CONCAT : N := 10.
 
 (* error classes of a run *)
 Inductive rerr : Type :=
@@ -63,7 +66,10 @@ Inductive rerr : Type :=
 | EModel                     (* the model call failed (scripted failure or script exhausted) *)
 | ETools (e : N)             (* the tools node failed with this class *)
 | EConcat                    (* the streamed chunks cannot be concatenated *)
-| ENoDirect.                 (* direct_return found no message at the stored position *)
+| ENoDirect                  (* direct_return found no message at the stored position *)
+| ELate (e : N).             (* Stream mode, return-directly: the graph run has ended and handed out
+                                direct_return's stream; the caller meets the failure of a tool stream while
+                                reading it (streams are lazy) *)
 
 Inductive outcome : Type := Final (m : msg) | Failed (e : rerr).
 
@@ -319,7 +325,9 @@ Section React.
   | TChat (input : res (list msg))   (* the caller's messages, or the tools node's output as the chat node's
                                         pre-processing concatenates it (which fails if the stream does) *)
   | TTools (input : msg)
-  | TDirect (input : tout).
+  | TDirect (input : tout)
+  | TToolsBad.                       (* the tools node scheduled on a model output whose chunks cannot be
+                                        concatenated (a malformed stream): its pre-processing fails *)
 
   (* the tools node's output in the given mode *)
   Definition tools_out (md : mode) (calls : list call) : res tout :=
@@ -358,7 +366,14 @@ Section React.
               | SFail :: _ => tr_fail EModel
               | SMsg content calls chunks :: script' =>
                   match delivered md content calls chunks with
-                  | None => tr_fail EConcat
+                  | None =>
+                      (* a stream whose chunks do not concatenate: streams are lazy, the chat node has
+                         returned it; the branch reads the chunks one by one and routes it - to the tools
+                         node, whose pre-processing fails on it in the next superstep, or to END: the run
+                         returns it and the caller fails reading it *)
+                      if checker (emitted_chunks md content calls chunks)
+                      then agent_loop md fuel' script' TToolsBad s1
+                      else tr_fail (ELate E_CONCAT)
                   | Some m =>
                       tr_emit [m]
                       (if checker (emitted_chunks md content calls chunks)
@@ -384,13 +399,15 @@ Section React.
                   else agent_loop md fuel' script (TChat (res_map (map tool_msg) rr)) s1)
               | r => tr_fail (tools_err r)
               end
+        | TToolsBad => tr_fail EConcat
         | TDirect o =>
             match s_rd s with
             | Some i =>
                 match tout_direct i o with
                 | Ok (Some r) => tr_final (tool_msg r)
                 | Ok None => tr_fail ENoDirect
-                | r => tr_fail (tools_err r)
+                | Err e => tr_fail (ELate e)
+                | Panic => tr_fail (ELate E_PANIC)
                 end
             | None => tr_fail ENoDirect
             end
@@ -400,6 +417,16 @@ Section React.
   Definition agent_run (md : mode) (max_steps : nat) (script : list step) (input : list msg) : trace :=
     agent_loop md max_steps script (TChat (Ok input)) (mkState [] None).
 End React.
+
+(* how the message future of a run ends (flow/agent/react/option.go: the graph's OnEnd / OnError
+   callbacks): closed when the graph run ended normally - also when the stream it handed out fails
+   later in the caller's hands -, with an error item when the run failed *)
+Definition future_closed (t : trace) : bool :=
+  match t_out t with
+  | Final _ => true
+  | Failed (ELate _) => true
+  | Failed _ => false
+  end.
 
 (* compose/graph.go: maxRunSteps == 0 -> len(nodes) + 10 ; nodes = chat, tools [, direct_return] *)
 Definition effective_max_steps (max_step : nat) (rd_nonempty : bool) : nat :=
